@@ -50,6 +50,9 @@ func genCase() *rapid.Generator[Case] {
 		if mask&(1<<8) != 0 { // tree in focus: splits and merges too
 			edits = append(edits, treeExtraOps...)
 		}
+		if mask&3 != 0 || rapid.IntRange(0, 3).Draw(t, "prims") == 0 { // objects/arrays in focus: every primitive kind
+			edits = append(edits, primOps...)
+		}
 		pool := append([]string{}, edits...)
 		if mask&(1<<(len(editKinds)-2)) != 0 { // undo in focus: make it frequent
 			pool = append(pool, "undo", "undo", "redo")
